@@ -13,6 +13,7 @@ CONSTANTS
   HydCounts = {}
   ChargeToks = {}
   PrefixSet = {}
+  MaxPrefixes = 2
   SuffixSet = {}
   PrimeMarks = {}
   MaxPrimes = 0
